@@ -6,6 +6,7 @@
   the images of the original parents; pruned commit ↦ first parent's image) is
   Frrs/Props/C02Graph.lean over the command-level model.
 -/
+import Frrs.Proofs.Stanza
 import Frrs.Proofs.Monotone
 import Frrs.Commit
 namespace Frrs.C02
@@ -224,5 +225,37 @@ theorem emitted_monotone (o : FOpts) (s s' : FState) (line inp inp' : Bytes) (fu
   have := step_ext o s line inp fuel
   rw [hs] at this
   exact this.emitted m hm
+
+/-! ### what ending a commit writes -/
+
+/-- a kept commit is written as its buffer (header, metadata, the finalized parent lines, the surviving change lines) and
+    nothing else -/
+theorem kept_commit_is_written (s : FState) (e : CommitEnd) : (recordKept s e).out = s.out ++ (e.buf ++ [B.lf]) := by
+  unfold recordKept
+  dsimp only
+  split <;> simp [FState.emit]
+
+/-- a pruned commit writes either nothing or exactly one alias stanza (with the reset that moves its ref), and the alias
+    target is a mark that was emitted -/
+theorem pruned_commit_writes_alias_or_nothing (s : FState) (e : CommitEnd) :
+    (recordDropped s e).out = s.out ∨
+    ∃ oldMark canonical, (recordDropped s e).out = s.out ++ aliasAndReset e.buf oldMark canonical ∧ canonical ∈ s.emitted := by
+  unfold recordDropped aliasDropped
+  have hz : (recordZeroPair s).out = s.out ∧ (recordZeroPair s).emitted = s.emitted ∧ (recordZeroPair s).alias = s.alias := by
+    unfold recordZeroPair; split <;> simp
+  cases hcm : (recordZeroPair s).commitMark with
+  | none => exact Or.inl (by simp [hz.1])
+  | some oldMark =>
+    cases hfp : e.firstParent with
+    | none => exact Or.inl (by simp [hz.1])
+    | some parentMark =>
+      simp only
+      by_cases hem : (recordZeroPair s).emitted.contains (resolveCanonical (recordZeroPair s).alias parentMark) = true
+      · have hem' : resolveCanonical (recordZeroPair s).alias parentMark ∈ (recordZeroPair s).emitted := by simpa using hem
+        refine Or.inr ⟨oldMark, resolveCanonical (recordZeroPair s).alias parentMark, ?_, ?_⟩
+        · simp [hem', FState.emit, hz.1]
+        · rw [← hz.2.1]; exact hem'
+      · have hem' : ¬ resolveCanonical (recordZeroPair s).alias parentMark ∈ (recordZeroPair s).emitted := by simpa using hem
+        exact Or.inl (by simp [hem', hz.1])
 
 end Frrs.C02
